@@ -3,6 +3,7 @@ package checks
 import (
 	"context"
 	"fmt"
+	"sigs.k8s.io/karpenter/pkg/scheduling"
 	"sort"
 	"strings"
 	"time"
@@ -39,6 +40,18 @@ func c18Worlds() map[string]dWorld {
 			{name: "a", pool: "default", typ: "l", zone: "a", ct: "on-demand", pods: []dPod{{name: "p1", cpu: 2500}}},
 			{name: "b", pool: "default", typ: "m", zone: "a", ct: "on-demand", pods: []dPod{{name: "p2", cpu: 900}}}},
 			pending: []dPod{{name: "q1", cpu: 3000}}},
+		// inter-pod constraints: topology groups are built from the cluster's pods for every simulation
+		"inter-pod-constraints": {catalog: K1r, pools: []*v1.NodePool{world.NodePool("default")}, nodes: []dNode{
+			{name: "a", pool: "default", typ: "m", zone: "a", ct: "on-demand", pods: []dPod{{name: "p1", cpu: 500, mods: []func(*corev1.Pod){lbl("app", "x"), antiAff(corev1.LabelHostname, "x", false)}}}},
+			{name: "b", pool: "default", typ: "m", zone: "b", ct: "on-demand", pods: []dPod{{name: "p2", cpu: 500, mods: []func(*corev1.Pod){lbl("app", "x"), antiAff(corev1.LabelHostname, "x", false)}}, {name: "p3", cpu: 300, mods: []func(*corev1.Pod){lbl("app", "y"), spread(corev1.LabelTopologyZone, 1, corev1.DoNotSchedule, "y")}}}},
+			{name: "c", pool: "default", typ: "l", zone: "a", ct: "spot", pods: []dPod{{name: "p4", cpu: 300, mods: []func(*corev1.Pod){lbl("app", "y"), spread(corev1.LabelTopologyZone, 1, corev1.DoNotSchedule, "y")}}}}},
+			pending: []dPod{{name: "q1", cpu: 400, mods: []func(*corev1.Pod){lbl("app", "x"), antiAff(corev1.LabelHostname, "x", false)}}}},
+		// daemon pods and host ports on every node; a drifted and a marked node among the candidates
+		"daemons-hostports-drift": {catalog: catalogs["K2"], pools: []*v1.NodePool{world.NodePool("default")}, nodes: []dNode{
+			{name: "a", pool: "default", typ: "l", zone: "b", ct: "on-demand", drifted: true, pods: []dPod{{name: "d1", cpu: 100, daemon: true, mods: []func(*corev1.Pod){hostPort(9100, "")}}, {name: "p1", cpu: 600, mods: []func(*corev1.Pod){hp}}}},
+			{name: "b", pool: "default", typ: "m", zone: "b", ct: "on-demand", pods: []dPod{{name: "d2", cpu: 100, daemon: true, mods: []func(*corev1.Pod){hostPort(9100, "")}}, {name: "p2", cpu: 600, mods: []func(*corev1.Pod){hp}}}},
+			{name: "c", pool: "default", typ: "m", zone: "a", ct: "spot", marked: true, pods: []dPod{{name: "p3", cpu: 300}}}},
+			pending: []dPod{{name: "q1", cpu: 500, mods: []func(*corev1.Pod){hp}}}},
 		"two-pools-pdb-and-dnd": {catalog: catalogs["K4"], pools: []*v1.NodePool{world.NodePool("default"), world.NodePool("spare", weight(5), reqsMod(reqZoneA()))}, nodes: []dNode{
 			{name: "a", pool: "default", typ: "l", zone: "a", ct: "spot", pods: []dPod{{name: "p1", cpu: 500, pdb: "blocked"}, {name: "p2", cpu: 400}}},
 			{name: "b", pool: "spare", typ: "m", zone: "a", ct: "on-demand", pods: []dPod{{name: "p3", cpu: 500, dnd: "true"}}},
@@ -55,6 +68,25 @@ func digestClusterFull(w *world.World, c *state.Cluster, withBookkeeping bool) s
 	parts := digestCluster(w, c)
 	for n := range c.Nodes() {
 		parts = append(parts, fmt.Sprintf("nominated %s=%v", n.ProviderID(), n.Nominated(w.Clock)))
+	}
+	// ... and the state as it is HANDED OUT to schedulers (DeepCopyNodes): what a later simulation will start from
+	probe := world.Pod("probe", 1, hostPort(8080, ""))
+	probePorts := scheduling.GetHostPorts(probe)
+	probe2 := world.Pod("probe2", 1, hostPort(9100, ""))
+	probePorts2 := scheduling.GetHostPorts(probe2)
+	for _, n := range c.DeepCopyNodes() {
+		port, port2, vol := "free", "free", "ok"
+		if err := n.HostPortUsage().Conflicts(probe, probePorts); err != nil {
+			port = "in-use"
+		}
+		if err := n.HostPortUsage().Conflicts(probe2, probePorts2); err != nil {
+			port2 = "in-use"
+		}
+		if err := n.VolumeUsage().ExceedsLimits(scheduling.Volumes{"csi.x": {"default/other-claim": {}}}); err != nil {
+			vol = "csi.x-full"
+		}
+		pr := n.PodRequests()
+		parts = append(parts, fmt.Sprintf("handed-out copy %s port8080=%s port9100=%s vol=%s podcpu=%d marked=%v", n.ProviderID(), port, port2, vol, pr.Cpu().MilliValue(), n.MarkedForDeletion()))
 	}
 	if withBookkeeping {
 		pods := &corev1.PodList{}
@@ -100,14 +132,14 @@ func init() {
 			names = append(names, n)
 		}
 		sort.Strings(names)
-		ks := []int{1, 2}
+		ks := []int{1, 2, 3}
 		if r.Tier == "thorough" {
-			ks = []int{1, 2, 3}
+			ks = []int{1, 2, 3, 4}
 		}
 		ctxModes := []string{"normal", "already-cancelled", "deadline-1ns"}
 		subsets := [][]int{{0}, {1}, {2}, {0, 1}, {0, 2}, {1, 2}, {0, 1, 2}}
-		r.Rule = fmt.Sprintf("%d disruption worlds (mixed nodes with host-port / deletion-cost pods and pending pods; deleting + uninitialized nodes; reserved offerings with the gate on; two pools with PDB / do-not-disrupt pods) x every candidate subset of size <=3 of the candidates returned by the real GetCandidates x k in %v consecutive disruption.SimulateScheduling calls x context {normal, already cancelled, 1ns deadline}; plus one Provisioner.Schedule pass per world. "+
-			"Oracle: digest of all API objects (incl. resourceVersions), of the cluster cache through exported accessors (usage, host-port / volume probes, deletion marks, nominations, consolidation state) and of the provider catalog INCLUDING slice order, availability and reservation counts identical before and after; zero write calls. For the provisioning pass only nominations and pod bookkeeping may differ. non-trivial = distinct (world, subset, k, context) whose simulation returned placements", len(names), ks)
+		r.Rule = fmt.Sprintf("%d disruption worlds (mixed nodes with host-port / deletion-cost pods and pending pods; deleting + uninitialized nodes; reserved offerings with the gate on; two pools with PDB / do-not-disrupt pods; pods with required anti-affinity and DoNotSchedule spread; daemon pods, host ports on every node, a drifted and a marked node) x every candidate subset of size <=3 of the candidates returned by the real GetCandidates x k in %v consecutive disruption.SimulateScheduling calls x context {normal, already cancelled, 1ns deadline}; plus one Provisioner.Schedule pass per world. "+
+			"Oracle: digest of all API objects (incl. resourceVersions), of the cluster cache through exported accessors — both the live entries and the copies DeepCopyNodes hands to schedulers — (usage, host-port / volume probes, deletion marks, nominations, consolidation state) and of the provider catalog INCLUDING slice order, availability and reservation counts identical before and after; zero write calls; repeated identical simulations decide the same. For the provisioning pass only nominations and pod bookkeeping may differ. non-trivial = distinct (world, subset, k, context) whose simulation returned placements", len(names), ks)
 		r.Assumptions = []string{"state is observed through exported accessors only", "real-time timeouts inside the scheduler are not reached"}
 		enum.Run(r, enum.Size(len(names), len(subsets), len(ks), len(ctxModes)), func(idx int64, l *ev.Local) {
 			d := enum.Odo(idx, len(names), len(subsets), len(ks), len(ctxModes))
@@ -132,6 +164,7 @@ func init() {
 			w.Client.Log = nil
 			api0, cl0, cat0 := w.DigestAPI(), digestClusterFull(w, w.Cluster, true), w.DigestCatalog()
 			placements := 0
+			firstDecision := ""
 			for k := 0; k < ks[d[2]]; k++ {
 				ctx := w.Ctx
 				var cancel context.CancelFunc
@@ -145,6 +178,15 @@ func init() {
 				res, _ := disruption.SimulateScheduling(ctx, w.Client, w.Cluster, w.Prov, w.Clock, w.Rec, nil, cands...)
 				if cancel != nil {
 					cancel()
+				}
+				// the same simulation repeated must decide the same: an earlier one left nothing behind
+				if ctxModes[d[3]] == "normal" {
+					dg := digestOutcome(schedOutcome{Results: res})
+					if k == 0 {
+						firstDecision = dg
+					} else if dg != firstDecision {
+						l.Violation("consecutive identical simulations disagree", fmt.Sprintf("simulation #1 decided %q, simulation #%d decided %q  [world=%s candidates=%v]", firstDecision, k+1, dg, names[d[0]], candNames(cands)), map[string]any{"world": names[d[0]]})
+					}
 				}
 				for _, nc := range res.NewNodeClaims {
 					placements += len(nc.Pods)
